@@ -677,3 +677,72 @@ def loop_counter_exits(fn, hb, edge_ok=None):
                 continue
             out.append((c, nodes[0], bid))
     return out
+
+
+# release functions that leave their argument's storage pointer as it was (ext2fs_free_mem(&p) is not one: it zeroes p)
+RELEASERS = {"free": 0, "ext2fs_free_block_bitmap": 0, "ext2fs_free_inode_bitmap": 0, "ext2fs_free_generic_bitmap": 0,
+             "ext2fs_free_generic_bmap": 0, "io_channel_close": 0, "ext2fs_badblocks_list_free": 0, "ext2fs_u32_list_free": 0,
+             "ext2fs_free_dblist": 0, "ext2fs_free_icount": 0, "ext2fs_free_inode_cache": 0, "ext2fs_extent_free": 0,
+             "ext2fs_file_close": 0, "ext2fs_xattrs_close": 0, "ea_refcount_free": 0, "quota_release_context": 0}
+
+
+def dangling_field_frees(fn):
+    """releases of `X->fld` after which fn can return with the field still holding the released pointer:
+    no store to X->fld, no call given &X->fld, and X itself not freed, on some path to the exit.
+    -> [(call node, (record, field), base variable)]"""
+    out = []
+    for n in fn.call_nodes():
+        for cn in T.call_names(n.ev["x"]):
+            if cn not in RELEASERS:
+                continue
+            a = T.strip(arg(n, RELEASERS[cn]))
+            if not (isinstance(a, dict) and a.get("k") == "m" and a.get("a")):
+                continue
+            lf, base, p = T.last_field(a), T.path(a.get("b")), T.path(a)
+            if not lf or not base or not p:
+                continue
+            clears = [m for m in fn.events("S") if T.path(m.ev["lhs"]) == p]
+            for m in fn.call_nodes():
+                for x in m.ev["x"].get("a", []):
+                    x0 = T.strip(x)
+                    if isinstance(x0, dict) and x0.get("k") == "u" and x0.get("o") == "&" and T.path(x0.get("e")) in (p, base):
+                        clears.append(m)        # &X->fld handed out (re-filled), or &X to ext2fs_free_mem (owner gone)
+                if is_call(m, "free") and T.path(arg(m, 0)) == base:
+                    clears.append(m)
+            if not fn.must_pass_after(n, clears):
+                out.append((n, tuple(lf), base))
+    return out
+
+
+def double_releases(prog, fns):
+    """a field released and left dangling by fn (dangling_field_frees) that is released again - later in fn itself, or
+    after the call in a direct caller of fn.  -> (number of dangling releases examined, [(fn, first, where, second)])"""
+    hits, n_exam = [], 0
+    callers = prog.callers()
+    for fn in fns:
+        for (n, lf, base) in dangling_field_frees(fn):
+            n_exam += 1
+
+            def again(g, start):
+                r = g.reach(g.after(start))
+                res = []
+                for m in g.call_nodes():
+                    if m in r and m is not start and any(cn in RELEASERS for cn in T.call_names(m.ev["x"])):
+                        cn = [c for c in T.call_names(m.ev["x"]) if c in RELEASERS][0]
+                        a = T.strip(arg(m, RELEASERS[cn]))
+                        if isinstance(a, dict) and a.get("k") == "m" and T.last_field(a) and tuple(T.last_field(a)) == lf:
+                            # not when the field was given a new value on the way
+                            p = T.path(a)
+                            refills = [s for s in g.events("S") if T.path(s.ev["lhs"]) == p] + \
+                                [c for c in g.call_nodes() if any(isinstance(T.strip(x), dict) and T.strip(x).get("k") == "u" and
+                                                                  T.strip(x).get("o") == "&" and T.path(T.strip(x).get("e")) == p
+                                                                  for x in c.ev["x"].get("a", []))]
+                            if m in g.reach(g.after(start), avoid=refills):
+                                res.append(m)
+                return res
+            for m in again(fn, n):
+                hits.append((fn, n, fn, m))
+            for (cf, cn_) in callers.get(fn.key, []):
+                for m in again(cf, cn_):
+                    hits.append((fn, n, cf, m))
+    return n_exam, hits
